@@ -31,7 +31,7 @@ ASSUMPTIONS = ['the scripted limiter runs the function inline or raises instead 
                'library versions of the numeric stack cannot be varied offline: the installed stack (numpy 1.26 / pandas 3 / numba 0.6x) only',
                'if every candidate of a stage times out the selector may only fail with its explicit RuntimeError']
 CHUNK = 1
-REQUIRED_FEATURES = {'*': ['script_single_dev', 'cache_other_process', 'degenerate_one', 'degenerate_zero', 'key_family', 'partial_first']}
+REQUIRED_FEATURES = {'*': ['script_single_dev', 'cache_other_process', 'degenerate_one', 'degenerate_zero', 'key_family', 'partial_first', 'script_complement']}
 _TIER = ['quick']
 
 
@@ -62,6 +62,10 @@ def settings_list(tier):
         dict(src=[('2', False)], tgt=[('1', False)], ex='none'),                           # zero matrices
         dict(src=[('1', False), ('1', False)], tgt=[('1', False)], ex='src0'),             # zero matrices in one pattern only
         dict(src=[('0..1', False), ('1..2', True)], tgt=[('0,2', True), ('0..*', True)], ex='both'),
+        # complement scripts (only two candidates run) in the quick tier
+        dict(src=[('0..*', True), ('1..2', True)], tgt=[('0..*', True), ('0,2', True)], ex='none', complements=1),
+        dict(src=[('1..*', False), ('0..*', True)], tgt=[('0..*', False), ('0..1', False), ('1..*', True)], ex='none', complements=1),
+        dict(src=[('0..*', False), ('0..1', False)], tgt=[('0..*', False), ('1', False)], ex='src0', complements=1),
     ]
     if tier != 'quick':
         T = c10.T5
@@ -128,7 +132,7 @@ def clear_cache(sub=None):
         shutil.rmtree(os.path.join(d, name), ignore_errors=True)
 
 
-def select(case, script=None, default='run', reject=None):
+def select(case, script=None, default='run', reject=None, by_name=None):
     """Run the real selector under a scripted limiter.  reject: {candidate call index: exception name} is implemented by
     making the limiter raise that exception instead of running the candidate."""
     from adsg_core.optimization.assign_enc.selector import EncoderSelector
@@ -140,7 +144,8 @@ def select(case, script=None, default='run', reject=None):
                  DetectedHighImpRatio=lambda: DetectedHighImpRatio(None, 1e6))
     scr = {int(k): (v if v == 'run' else names[v]) for k, v in (script or {}).items()}
     dflt = default if default == 'run' else names[default]
-    with env.limiter(script=scr, default=dflt) as lim:
+    bn = {k: (v if v == 'run' else names[v]) for k, v in (by_name or {}).items()}
+    with env.limiter(script=scr, default=dflt, by_name=bn) as lim:
         sel = EncoderSelector(settings)
         mgr = sel.get_best_assignment_manager()
     return mgr, lim, pats, existences
@@ -276,10 +281,36 @@ def run_selector_case(case, res):
         check(mgr, pats_, existences, label)
         if res['violations']:
             return
+    # --- complements: only TWO candidate instantiations run, every other limited call times out (the score table then holds
+    # candidates that are rarely compared with each other, e.g. only ones without a distance correlation)
+    inst = [k for k in range(n_calls) if kinds.get(k) == '_instantiate_manager']
+    if case.get('complements'):
+        feats['script_complement'] = feats.get('script_complement', 0) + 1
+        for a, b_ in itertools.combinations(inst, 2):
+            clear_cache()
+            label = 'only-%d-%d-run' % (a, b_)
+            res['evals'] += 1
+            res['trans'] += 1
+            try:
+                mgr, lim, _, _ = select(case, default='TimeoutError', script={0: 'run', a: 'run', b_: 'run'})
+            except RuntimeError as e:
+                if 'Cannot find best encoder' in str(e) or 'No encoders available' in str(e):
+                    continue
+                viol('selection-raised', dict(exc=(type(e).__name__, str(e)[:300])), script=label)
+                return
+            except Exception as e:
+                viol('selection-raised', dict(exc=(type(e).__name__, str(e)[:300])), script=label)
+                return
+            check(mgr, pats_, existences, label)
+            if res['violations']:
+                return
     # --- extremes
     for label, kw in (('all-timeout', dict(default='TimeoutError')),
                       ('all-timeout-but-count', dict(default='TimeoutError', script={0: 'run'})),
-                      ('all-candidates-memory-error', dict(default='MemoryError', script={0: 'run'}))):
+                      ('all-candidates-memory-error', dict(default='MemoryError', script={0: 'run'})),
+                      # no distance correlation for any candidate: the ranking falls back to the information index
+                      ('all-distance-correlations-timeout', dict(by_name={'_get_dist_corr': 'TimeoutError'})),
+                      ('all-distance-correlations-memory-error', dict(by_name={'_get_dist_corr': 'MemoryError'}))):
         clear_cache()
         res['evals'] += 1
         try:
